@@ -2468,6 +2468,8 @@ func TestVerifWireMcp(t *testing.T) {
 				step("sse.frn "+fstreamTok(fs), ftags...)
 				ls, ltags := genSSELines(r)
 				step("sse.lines "+ls, ltags...)
+				nd, ndtags := genNdStream(r, iog)
+				step("nd.split "+nd, ndtags...)
 			}
 			// list results page by page on a real session
 			if c%verifN(4, 10) == 0 {
